@@ -290,6 +290,8 @@ def thread_configs(tier):
   # sharded source (one shard is empty) and over one shared iterator
   two_deep = [
       c(ops=[], agg='bag', n=1, source='seq', threads=2),
+  ]
+  two_small = [
       c(ops=[], agg='bag', n=1, source='stream', threads=2),
   ]
   two_more = [      # thorough only
@@ -322,7 +324,8 @@ def thread_configs(tier):
   if tier == 'quick':
     return [('1 worker + consumer, preemption bound 2', 2, one_deep),
             ('1 worker + consumer, preemption bound 1', 1, one),
-            ('2 workers + consumer, preemption bound 1', 1, two_deep + two),
+            ('2 workers + consumer, preemption bound 1', 1,
+             two_deep + two_small + two),
             ('3 workers + consumer, preemption bound 0 (free switches at '
              'blocking points)', 0, three)]
   # thorough.  Measured (one process, happens-before cache): 1 worker at bound
@@ -330,10 +333,12 @@ def thread_configs(tier):
   # record) / 6-9*10^4 (2 records); 3 workers at bound 1 = 1-2*10^4.
   return [('1 worker + consumer, preemption bound 3', 3, one_deep[1:]),
           ('1 worker + consumer, preemption bound 2', 2, one_deep[:1] + one),
-          ('2 workers + consumer (1 record), preemption bound 2 - with 2 or '
-           'more records bound 2 costs 6-9*10^4 executions per configuration, '
-           'those stay at bound 1', 2, two_deep),
-          ('2 workers + consumer, preemption bound 1', 1, two + two_more),
+          ('2 workers + consumer (1 record, sharded source), preemption bound '
+           '2 - the shared-iterator configuration costs 4*10^4 and those with '
+           '2 or more records 6-9*10^4 executions at bound 2, they stay at '
+           'bound 1', 2, two_deep),
+          ('2 workers + consumer, preemption bound 1', 1,
+           two_small + two + two_more),
           ('3 workers + consumer, preemption bound 1', 1, three[:3]),
           ('3 workers in a later stage + consumer, preemption bound 0 (bound 1 '
            'costs 2*10^4 executions)', 0, three[3:])]
@@ -465,6 +470,10 @@ def run(ctx):
   # configuration is first expanded breadth-first into >= SPLIT subtrees.
   seeds = []
   limits = {'max_execs': None, 'time_limit': None, 'hb_cache': True}
+  if getattr(ctx, 'deadline', None) is not None:
+    # the runner's wall-clock safety net: open subtrees past the deadline are
+    # abandoned and reported through ctx.cap (run marked not exhaustive)
+    limits['deadline'] = ctx.deadline
   if 'threads' in only:
     seeds += [('vmc.sharness', n, p, (bound, 0), 2, limits)
               for _, bound, cfgs in tgroups for n, p in cfgs]
